@@ -128,3 +128,17 @@ ITEMS = [
     ('law_bodies', item_law_bodies),
     ('segment_exprs', item_segment_exprs),
 ]
+
+
+def _merge(modname):
+    import importlib
+    try:
+        m = importlib.import_module(modname)
+    except ImportError:
+        return
+    have = {n for n, _ in ITEMS}
+    ITEMS.extend([it for it in m.ITEMS if it[0] not in have])
+
+
+for _m in ('harness.extract_c13', 'harness.extract_c14', 'harness.extract_c15', 'harness.extract_c19', 'harness.extract_c20'):
+    _merge(_m)
